@@ -7,6 +7,7 @@ import PortusModel.Driver.Rt
 import PortusModel.Driver.Vm
 import PortusModel.Driver.Uid
 import PortusModel.Driver.Xpt
+import PortusModel.Driver.Wt
 /-! `pmodel`: the line-protocol driver around the model's executable definitions. -/
 open Portus.Driver
 
@@ -23,6 +24,7 @@ def dispatch (cmd : String) (args : List String) : String :=
   | "UID" => uidCmd args
   | "STOP" => stopCmd args
   | "XPT" => xptCmd args
+  | "WT" => wtCmd args
   | "CMP" => cmp args
   | "AST" => ast args
   | "ORC" => (match args with
